@@ -3,6 +3,7 @@
 #pragma once
 #include <cstddef>
 #include <cstdint>
+#include <cstdlib>
 #include <functional>
 #include <vector>
 
@@ -38,6 +39,12 @@ struct IAddr {
     virtual void update_all() = 0;
     virtual bool sanity_check() = 0;
     virtual void copy_move(unsigned how, AKey extra) = 0;
+    // (types target only, implemented in C13_addressable_types_impl.hpp)
+    virtual void set_prio(AKey, int) {}             // comparators that own a copy of the priority table
+    virtual void remove_top_alias(unsigned) { abort(); } // h.remove(h.top()) / const key_type& r = h.top(); h.remove(r)
+    virtual void update_top_alias() { abort(); }    // h.update(h.top())
+    virtual void push_extracted() { abort(); }      // h.push(h.extract_top())
+    virtual void build_ext(unsigned, const std::vector<AKey>&) { abort(); } // deque / list / reverse iterators, reused vectors
 };
 
 template <unsigned A, class Cmp>
